@@ -206,7 +206,24 @@ impl Property for P {
             }
             d
         };
-        let created = guarded(|| VerifMonitoredItem::new(&now, 1, ttr, &st, &req).and_then(|i| i.validate_filter(&w.space).map(|_| i)));
+        // how the filter reaches the item is not part of the case term either: CreateMonitoredItems with the filter,
+        // or an item created with an ordinary filter and then modified to it (ModifyMonitoredItems), or created with
+        // a deadband filter, modified to an ordinary one and then to the case's.  A refusal at any of these is [-1];
+        // an accepted filter must behave the same whichever way it came.
+        let route = (c.samples.len() + c.dtype as usize + 2 * c.trigger as usize + (c.dval.to_bits() % 5) as usize) % 3;
+        let plain = |dt: u32, dv: f64| ExtensionObject::from_encodable(ObjectId::DataChangeFilter_Encoding_DefaultBinary,
+            &DataChangeFilter { trigger: DataChangeTrigger::StatusValue, deadband_type: dt, deadband_value: dv });
+        let with_filter = |f: ExtensionObject| MonitoredItemCreateRequest { requested_parameters: MonitoringParameters { filter: f, ..req.requested_parameters.clone() }, ..req.clone() };
+        let modify_to = |item: &mut VerifMonitoredItem, f: ExtensionObject| -> Result<(), StatusCode> {
+            let m = MonitoredItemModifyRequest { monitored_item_id: 1, requested_parameters: MonitoringParameters { filter: f, ..req.requested_parameters.clone() } };
+            item.modify(&st, &w.space, ttr, &m).map(|_| ())
+        };
+        let created = guarded(|| match route {
+            0 => VerifMonitoredItem::new(&now, 1, ttr, &st, &req).and_then(|i| i.validate_filter(&w.space).map(|_| i)),
+            1 => VerifMonitoredItem::new(&now, 1, ttr, &st, &with_filter(plain(0, 0.0))).and_then(|mut i| { i.validate_filter(&w.space)?; modify_to(&mut i, req.requested_parameters.filter.clone())?; Ok(i) }),
+            _ => VerifMonitoredItem::new(&now, 1, ttr, &st, &with_filter(plain(1, 3.0))).and_then(|mut i| { i.validate_filter(&w.space)?; modify_to(&mut i, plain(0, 0.0))?;
+                                                                                                        modify_to(&mut i, req.requested_parameters.filter.clone())?; Ok(i) }),
+        });
         match created {
             Err(_) => out.push(-2),
             Ok(Err(_)) => out.push(-1),
